@@ -367,6 +367,11 @@ impl Hypercore {
         }
 
         let byte_range = self.byte_range(index, None).await?;
+        if byte_range.length == 0 {
+            // An empty block occupies no bytes: there is nothing to read from the data
+            // store, which may even end before the block's offset after a clear.
+            return Ok(Some(vec![]));
+        }
 
         // TODO: Generalize Either response stack
         let data = match self.block_store.read(&byte_range, None) {
